@@ -197,6 +197,9 @@ class GopherEntry:
         for extension, blockname in list(eaexts.items()):
             if blockname in self.ea:
                 continue
+            if not vfs.isfile(selector + extension):
+                # Usually there is no such file; a FIFO would block forever.
+                continue
             try:
                 with vfs.open(
                     selector + extension, "r", errors="surrogateescape"
